@@ -1174,7 +1174,10 @@ def rt_interval(inp):
             ok = fin.size == 0 or any(v is not None and not (0 <= v <= 1) for v in q)
             return dict(violated=not ok, observed=f"get_limits raised {type(e).__name__}: {e}", expected="limits (data has finite entries, quantiles in [0,1])")
         lo, hi = float(lo), float(hi)
-        y = iv(x)
+        try:
+            y = iv(x)
+        except Exception as e:
+            return dict(violated=True, observed=f"interval(x) raised {type(e).__name__}: {e}", expected="normalised array")
         if not np.array_equal(x, x0, equal_nan=True):
             problems.append("input array modified")
         y = np.asarray(y, dtype=float)
@@ -1213,6 +1216,9 @@ DATASETS = {
     "negatives": [-7.5, -1.0, 0.0, 0.25, 2.0, 11.0],
     "nan-inf": ["nan", -3.0, "-inf", 0.0, 0.5, "nan", 1.0, "inf", 42.0],
     "mostly-equal": [0.0] * 60 + [1.0],
+    "narrow-range-on-pedestal": [5000.0, 5000.004, 5000.01, 5000.0197, 5000.015],
+    "tiny-scale": [1e-10, 2.5e-10, 0.0, 2.9e-9, 1.1e-9],
+    "huge-scale": [-3e12, 1e11, 2.5e12, 7e12],
     "wide-ints": [-100, -50, 0, 27, 28, 50, 100],
     "full-int8": [-128, -100, -1, 0, 27, 28, 100, 127],
     "small-uints": [5, 10, 100, 200, 250],
@@ -1230,16 +1236,20 @@ INTS = ("int64", "int32", "int16", "int8", "uint8", "uint16")
 def _datasets_for(dtype):
     k = np.dtype(dtype)
     for name, xs in DATASETS.items():
-        if k.kind != "f" and name in ("nan-inf",):
+        if k.kind != "f" and name in ("nan-inf", "narrow-range-on-pedestal", "tiny-scale", "huge-scale"):
             continue
+        if k.kind == "f":
+            # the data set must be representable in the dtype (float16: 1e11 would become inf, 1e-10 would become 0)
+            fi = np.finfo(k)
+            nums = [abs(v) for v in xs if not isinstance(v, str) and v != 0]
+            if nums and (max(nums) > fi.max / 4 or min(nums) < fi.tiny * 1e3 or (name == "narrow-range-on-pedestal" and fi.eps > 1e-7)):
+                continue
         if k.kind != "f" and any(isinstance(v, float) and v != int(v) for v in xs):
             xs = [int(v * 4) for v in xs]
         if k.kind in "iu":
             info = np.iinfo(k)
             if any(v < info.min or v > info.max for v in xs):
                 continue
-        if k == np.dtype("float16") and name == "nan-inf":
-            pass
         yield name, xs
 
 
@@ -1267,8 +1277,23 @@ def conc_interval(name):
             xs.append("nan" if ev(f"values_nan{j}", False) else ("inf" if (ev(f"values_inf{j}", 0) or 0) > 0 else "-inf" if (ev(f"values_inf{j}", 0) or 0) < 0 else float(v)))
         lo, hi = ev("values_min"), ev("values_max")
         xs += [float(v) for v in (lo, hi) if v is not None]
+        xs += [k for k, flag in (("inf", "values_has_pinf"), ("-inf", "values_has_ninf"), ("nan", "values_has_nan")) if ev(flag, False)]
         return dict(cls=name, fields=fields, xs=xs or [0.0, 1.0], dtype="float64")
     return conc
+
+
+def conc_base_interval(ev):
+    """BaseInterval.__call__ is verified for an arbitrary get_limits result (vmin, vmax): realised by ManualInterval(vmin, vmax)."""
+    lo, hi = ev("vmin"), ev("vmax")
+    if lo is None or hi is None:
+        return None
+    xs = []
+    for j in range(2):
+        v = ev(f"values_x{j}")
+        if v is None:
+            continue
+        xs.append("nan" if ev(f"values_nan{j}", False) else ("inf" if (ev(f"values_inf{j}", 0) or 0) > 0 else "-inf" if (ev(f"values_inf{j}", 0) or 0) < 0 else float(v)))
+    return dict(cls="ManualInterval", fields=dict(vmin=float(lo), vmax=float(hi)), xs=xs + [float(lo), float(hi)], dtype="float64")
 
 
 def predicts_wraparound(kind, fields, xs, dtype):
@@ -1416,6 +1441,49 @@ def conc_norm(ev):
     return dict(preset="minmax", xs=xs, dtype="float64", data_given=False)
 
 
+def rt_init(inp):
+    """configuration -> interval / stretch objects, as the class docstring describes it (a power != 1 selects the power law)."""
+    cfg = dict(inp["config"])
+    itype, stype, power = cfg.get("interval_type", "quantile"), cfg.get("stretch_type", "linear"), cfg.get("power", 1.0)
+    exp_err = itype not in ITYPES or (stype != "power" and power == 1.0 and stype not in STYPES) or power <= 0
+    x = _arr(inp["xs"]) if inp.get("xs") else None
+    with _quiet():
+        try:
+            n = CNORM(**cfg, data=x)
+        except ValueError as e:
+            return dict(violated=not exp_err, observed=f"ValueError: {e}", expected="an object" if not exp_err else "ValueError")
+        problems = []
+        if exp_err:
+            problems.append("invalid configuration accepted")
+        want = "PowerLawStretch" if (stype == "power" or power != 1.0) else STYPES.get(stype)
+        if type(n.stretch).__name__ != want:
+            problems.append(f"stretch is {type(n.stretch).__name__}, configuration (stretch_type={stype!r}, power={power}) selects {want}")
+        elif want == "PowerLawStretch" and n.stretch.power != power:
+            problems.append(f"power {n.stretch.power} != {power}")
+        elif want == "LogarithmicStretch" and n.stretch.a != cfg.get("logarithmic_index", 1000.0):
+            problems.append(f"logarithmic index {n.stretch.a}")
+        elif want == "InverseHyperbolicSineStretch" and n.stretch.a != cfg.get("asinh_linear_range", 0.1):
+            problems.append(f"asinh range {n.stretch.a}")
+        ref = K(ITYPES[itype])(**{k: cfg[k] for k in {"quantile": ("lower_quantile", "upper_quantile"), "manual": ("vmin", "vmax"), "centered": ("vcenter", "half_range")}[itype] if k in cfg})
+        if x is None:
+            if n.interval != ref:
+                problems.append(f"interval {n.interval} != configured {ref}")
+        else:
+            lo, hi = (float(v) for v in ref.get_limits(x))
+            if type(n.interval).__name__ != "ManualInterval" or (n.interval.vmin, n.interval.vmax) != (lo, hi) or (n.vmin, n.vmax) != (lo, hi):
+                problems.append(f"limits not frozen to those of the configured interval on the data ({lo}, {hi}): {n.interval}, vmin/vmax=({n.vmin}, {n.vmax})")
+    return dict(violated=bool(problems), observed="; ".join(problems[:3]) or "ok", expected="interval and stretch objects as configured; limits frozen from data")
+
+
+def fam_init(tier="quick", seed=0):
+    for itype, extra in (("quantile", {}), ("quantile", dict(lower_quantile=0.1, upper_quantile=0.7)), ("manual", {}), ("manual", dict(vmin=1.0)), ("manual", dict(vmin=-1.0, vmax=2.5)),
+                         ("centered", {}), ("centered", dict(vcenter=2.0, half_range=3.0)), ("bogus", {})):
+        for stype, sx in (("linear", {}), ("power", dict(power=2.0)), ("power", {}), ("logarithmic", dict(logarithmic_index=10.0)), ("logarithmic", dict(power=2.0)),
+                          ("asinh", dict(asinh_linear_range=0.3)), ("asinh", dict(power=0.5)), ("linear", dict(power=3.0)), ("bogus", {}), ("bogus", dict(power=2.0)), ("linear", dict(power=-1.0))):
+            for xs in (None, DATASETS["negatives"], DATASETS["nan-inf"]):
+                yield dict(config=dict(interval_type=itype, stretch_type=stype, **extra, **sx), xs=xs)
+
+
 def rt_resolve(inp):
     problems = []
     for name, spec in PRESET_SPEC.items():
@@ -1508,12 +1576,13 @@ for _n in STRETCH_NAMES:
         _c.rt, _c.rt_family, _c.concretize = rt_stretch, (lambda _n=_n: (i for i in fam_stretch() if i["cls"] == _n)), conc_stretch(_n)
 for _n in INTERVALS:
     C_LIMITS[_n].rt, C_LIMITS[_n].rt_family, C_LIMITS[_n].concretize = rt_interval, (lambda _n=_n: (i for i in fam_interval() if i["cls"] == _n and np.dtype(i["dtype"]).kind == "f")), conc_interval(_n)
-_ffam = lambda: (i for i in fam_interval() if np.dtype(i["dtype"]).kind == "f")
-C_BI_CALL.rt, C_BI_CALL.rt_family = rt_interval, _ffam
+_ffam = lambda: (i for i in fam_interval() if np.dtype(i["dtype"]).kind == "f" or i["dtype"] == "int64")  # int64: no wrap-around on these data
+C_BI_CALL.rt, C_BI_CALL.rt_family, C_BI_CALL.concretize = rt_interval, _ffam, conc_base_interval
 C_BI_INV.rt, C_BI_INV.rt_family = rt_interval, _ffam
-_nfam = lambda: (i for i in fam_norm() if np.dtype(i["dtype"]).kind == "f")
-for _c in (C_CALL, C_CINV, C_SETLIM, C_INIT):
+_nfam = lambda: (i for i in fam_norm() if np.dtype(i["dtype"]).kind == "f" or i["dtype"] in ("int64", "bool"))
+for _c in (C_CALL, C_CINV, C_SETLIM):
     _c.rt, _c.rt_family = rt_norm, _nfam
+C_INIT.rt, C_INIT.rt_family = rt_init, fam_init
 C_CALL.concretize = conc_norm
 C_RESOLVE.rt, C_RESOLVE.rt_family = rt_resolve, (lambda: iter([{}]))
 
@@ -1581,6 +1650,7 @@ BOUNDED = [
     Bounded.from_rt("intervals: dtype sweep", rt_interval, fam_interval, "9 dtypes (float16/32/64, int8..64, uint8/16) x 8 data sets x 12 interval configurations", klass=klass_dtype),
     Bounded.from_rt("CustomNormalization: dtype x preset sweep with NaN/inf entries", rt_norm, fam_norm,
                     "10 dtypes x <=9 data sets x (10 presets + 5 explicit configurations) x data given / not given; 1-d, 2-d, 3-d", klass=klass_norm),
+    Bounded.from_rt("CustomNormalization.__init__: configuration -> interval / stretch objects", rt_init, fam_init, "8 interval x 11 stretch configurations x (no data, 2 data sets)"),
     Bounded.from_rt("presets resolve to what their names promise (real objects)", rt_resolve, lambda: iter([{}]), "all presets + keyword forms + 2 rejected inputs"),
     Bounded.from_rt("display entry points pass the configured limits on", rt_show_wiring, fam_show, "_show_2d_array, _show_2d_combined; one manual configuration", klass=klass_show),
     Bounded.from_rt("0-d array", rt_zero_d, lambda: iter([dict(x=1.0)]), "one 0-d input",
